@@ -102,4 +102,8 @@ def c02(res, tier, seed):
 # ---------------------------------------------------------------------------- other families
 import glob as _glob, importlib as _importlib
 for _p in sorted(_glob.glob(os.path.join(os.path.dirname(os.path.abspath(__file__)), "props_*.py"))):
-    _importlib.import_module(os.path.basename(_p)[:-3])
+    try:
+        _importlib.import_module(os.path.basename(_p)[:-3])
+    except Exception as _e:   # a broken family file must not take the other families' checks down
+        import sys as _sys
+        print("[verif] WARNING: cannot load %s: %r" % (_p, _e), file=_sys.stderr)
